@@ -47,6 +47,7 @@ package pgo
 // associated by position (C04, C13).
 //@ func (a *augmenter) Apply(cursor) (res)
 //@   requires cursor != nil && a.file != nil && a.augs != nil && a.adj != nil
+//@   requires typing: a.adj.Fset != nil && a.adj.File != nil
 //@   requires typing: curNode(cursor) != nil ==> cursorSlotTyped(cursor)
 //@   requires typing: forall k S_pgo_augPos {has(a.augs, k)} :: has(a.augs, k) ==> a.augs[k] != nil && a.augs[k].typ == dyn("*github.com/uber-go/gopatch/internal/pgo/augment.Dots")
 //@   at call (*golang.org/x/tools/go/ast/astutil.Cursor).Replace assert [C04,C13] the-elision-stands-where-its-placeholder-stood: dots != nil && dots.Dots == nodePos(n)
@@ -55,6 +56,7 @@ package pgo
 // (an elision that found no node must not be dropped silently - C04).
 //@ func (a *augmenter) Err() (err)
 //@   requires a.file != nil && a.adj != nil
+//@   requires typing: a.adj.Fset != nil && a.adj.File != nil
 //@   at call (*pgo.augmenter).errf set unplaced = unplaced + 1
 //@   at call go.uber.org/multierr.Combine assert [C04,C13] every-augmentation-that-found-no-node-is-reported: len(arg0) >= old(len(a.errors)) + (unplaced - old(unplaced))
 //@   assigns a.errors, elems(a.errors), unplaced
@@ -65,6 +67,7 @@ package pgo
 
 //@ func (a *augmenter) errf(pos, msg, args)
 //@   requires a.adj != nil
+//@   requires typing: a.adj.Fset != nil && a.adj.File != nil
 //@   assigns a.errors, elems(a.errors)
 //@   ensures [C04,C19] one-diagnostic-appended: len(a.errors) == old(len(a.errors)) + 1
 //@   ensures a.errors.arr == old(a.errors.arr) || fresh(a.errors.arr)
